@@ -1,7 +1,31 @@
-/- C16 line-protocol driver (core-only). Stub until the property's model lands. -/
+/- C16 line-protocol driver (core-only). Strings travel as hex of their bytes. -/
+import BV.Common.Hex
+import BV.Common.Sha256
+import BV.C16.Model
 namespace BV.C16.Driver
+open BV.Hex BV.C16
+
+/-- btcd's Base58Check checksum: first four bytes of double SHA-256 -/
+def cksum4 (b : List UInt8) : List UInt8 := (BV.Sha256.hash2List b).take 4
+
+def tok (b : List UInt8) : String := listToHexTok b
 
 def handle : List String → String
-  | _ => "unimplemented"
+  | ["b58e", b] => match hexToList? b with
+    | some b => tok (b58Encode b)
+    | none => "bad-op"
+  | ["b58d", s] => match hexToList? s with
+    | some s => tok (b58Decode s)
+    | none => "bad-op"
+  | ["chke", v, p] => match hexToList? v, hexToList? p with
+    | some [v], some p => tok (checkEncode cksum4 p v)
+    | _, _ => "bad-op"
+  | ["chkd", s] => match hexToList? s with
+    | some s => match checkDecode cksum4 s with
+      | .ok (p, v) => "ok " ++ tok [v] ++ " " ++ tok p
+      | .error .format => "err:format"
+      | .error .checksum => "err:checksum"
+    | none => "bad-op"
+  | _ => "bad-op"
 
 end BV.C16.Driver
